@@ -156,6 +156,15 @@ let do_pchk args =
          (if extra then 1 else 0) (string_of_z g))
   | _ -> "R BADREQ"
 
+(* ---- stream params:  V <codec> <k> <r> <L> <p1> <p2>  -> 1 accepted / 0 rejected *)
+let do_params args =
+  match List.map z_of_string args with
+  | [codec; k; r; l; p1; p2] ->
+    let b = (match int_of_z codec with
+      | 1 -> accept_rs28 k r l | 2 -> accept_rs2m p1 k r l | _ -> accept_ldpc k r l p1 p2) in
+    if b then "1" else "0"
+  | _ -> "BADREQ"
+
 let () =
   try
     while true do
@@ -169,6 +178,7 @@ let () =
       | "M" :: args -> print_endline (do_sparse args)
       | "R" :: args -> print_endline (do_rs args)
       | "Q" :: args -> print_endline (do_pchk args)
+      | "V" :: args -> print_endline (do_params args)
       | _ -> print_endline "BADREQ"
     done
   with End_of_file -> ()
